@@ -179,6 +179,30 @@ fn sc(toks: &[&str]) -> String {
         }
         // nothing else was added to the response
         out.push_str(&format!(" total {}", resp.headers.len()));
+        // ... and every one of these fields goes out on the wire, whatever the status of the response that carries the
+        // cookies (by the case: 200, 201, 204, 303, 304, 404 or 500): "one Set-Cookie field per cookie"
+        let codes = [200u16, 201, 204, 303, 304, 404, 500];
+        let code = codes[toks.iter().map(|t| t.len()).sum::<usize>() % codes.len()];
+        let mut resp = resp;
+        resp.code = code;
+        let mut wire: Vec<u8> = Vec::new();
+        let res = futures_lite::future::block_on(servlin::internal::write_http_response(&mut futures_lite::io::Cursor::new(&mut wire), &resp, false));
+        let head_end = wire.windows(4).position(|w| w == b"\r\n\r\n").unwrap_or(wire.len());
+        let mut on_wire: Vec<Vec<u8>> = Vec::new();
+        for line in wire[..head_end].split(|b| *b == b'\n') {
+            let line = if line.last() == Some(&b'\r') { &line[..line.len() - 1] } else { line };
+            if line.len() >= 11 && line[..11].eq_ignore_ascii_case(b"set-cookie:") {
+                let mut v = &line[11..];
+                if v.first() == Some(&b' ') {
+                    v = &v[1..]; // the serialiser writes "name: value"
+                }
+                on_wire.push(v.to_vec());
+            }
+        }
+        out.push_str(&format!(" wire {} {}", if res.is_ok() { "ok" } else { "err" }, on_wire.len()));
+        for v in on_wire {
+            out.push_str(&format!(" {}", tok_of_bytes(&v)));
+        }
         out
     });
     match r {
